@@ -9,6 +9,10 @@
 //! Impl: {"m0": A, "auto_nosidecar": A, "m1cold": A, "m1warm": A, "auto_sidecar": A,      A = [[row strings..] per query]
 //!        "sidecar": [{"lens":[batch rows..], "sum":[n, Σk, Σs#, Σw#, nulls_k, nulls_w]} per rg] | {"err":..},
 //!        "threads": [A_scan per thread]}
+//! Scheduled cases ({"sched": "xproc-race" | "xproc-safe" | "inproc", table spec…}) use the yield points 40-46 of ipc_cache.rs
+//! (/repo 325dad0): every participant is a child process (or a thread of one child) whose controller parks at a yield point
+//! while `<ctl>/<role>.hold<id>` exists and `<ctl>/<role>.go<id>` does not; the parent creates the go files in the order
+//! of the schedule. Impl: {"sched_ok": bool, "A": r, "B": r, "R": r, "R2": r | "C": r}, r = scan summary | {"err":..}.
 use crate::common::*;
 use crate::rng::Rng;
 use arrow::array::{Array, ArrayRef, Int64Array, StringArray};
@@ -122,6 +126,7 @@ fn child(o: &Opts, mode: &str) {
     let root = PathBuf::from(o.get("root").expect("root"));
     let cases = replay_cases(o.replay.as_ref().expect("child needs --replay"));
     for (i, c) in cases.iter().enumerate() {
+        if c["sched"].is_string() { continue; }
         let d = case_dir(&root, i);
         let cst = c["c"].as_i64().unwrap_or(0);
         let mut out = serde_json::Map::new();
@@ -171,9 +176,14 @@ fn run_all(cases: Vec<Value>) {
     let root = scratch().join(format!("c20-{}", std::process::id()));
     let _ = std::fs::remove_dir_all(&root);
     let mut ok = vec![true; cases.len()];
+    let mut sched_out: Vec<Option<Value>> = vec![None; cases.len()];
     for (i, c) in cases.iter().enumerate() {
         let d = case_dir(&root, i);
         let _ = std::fs::create_dir_all(&d);
+        if c["sched"].is_string() {
+            if write_table(&d.join("a.parquet"), c).is_err() { ok[i] = false; } else { sched_out[i] = Some(run_sched(c, &d)); }
+            continue;
+        }
         for f in ["a.parquet", "b.parquet", "c.parquet"] { if write_table(&d.join(f), c).is_err() { ok[i] = false; } }
     }
     let file = root.join("cases.jsonl");
@@ -196,9 +206,120 @@ fn run_all(cases: Vec<Value>) {
     }
     for (i, c) in cases.into_iter().enumerate() {
         if !ok[i] { emit(c, json!({"harness_error": "write"})); continue; }
+        if let Some(v) = sched_out[i].take() { emit(c, v); continue; }
         emit(c, Value::Object(merged[i].clone()));
     }
     let _ = std::fs::remove_dir_all(&root);
+}
+
+
+// ---------------------------------------------------------------- scheduled interleavings (yield points 40..46)
+thread_local! { static ROLE: std::cell::RefCell<Option<String>> = const { std::cell::RefCell::new(None) }; }
+
+fn install_controller(ctl: PathBuf, role: String) {
+    query_engine::verif::set_controller(Some(Arc::new(move |id: u32| {
+        if !(40..=46).contains(&id) { return; }
+        let r = ROLE.with(|r| r.borrow().clone()).unwrap_or_else(|| role.clone());
+        let _ = std::fs::write(ctl.join(format!("{}.at{}", r, id)), b"");
+        if ctl.join(format!("{}.hold{}", r, id)).exists() {
+            let go = ctl.join(format!("{}.go{}", r, id));
+            let t0 = std::time::Instant::now();
+            while !go.exists() && t0.elapsed() < std::time::Duration::from_secs(30) { std::thread::sleep(std::time::Duration::from_millis(2)); }
+        }
+    })));
+}
+
+fn scan_summary(p: &Path) -> Value {
+    let p = p.to_path_buf();
+    guarded(move || match ParquetTable::try_new(&p).and_then(|t| t.scan(None)) {
+        Ok(bs) => summary(&bs),
+        Err(e) => json!({"err": format!("{e}").chars().take(120).collect::<String>()}),
+    })
+}
+
+fn wait_file(p: &Path, secs: u64) -> bool {
+    let t0 = std::time::Instant::now();
+    while !p.exists() { if t0.elapsed() > std::time::Duration::from_secs(secs) { return false; } std::thread::sleep(std::time::Duration::from_millis(2)); }
+    true
+}
+
+fn sched_child(o: &Opts, role: &str) {
+    let ctl = PathBuf::from(o.get("ctl").expect("ctl"));
+    let path = PathBuf::from(o.get("path").expect("path"));
+    install_controller(ctl.clone(), role.to_string());
+    if role == "inproc" {
+        // thread A takes BUILD_LOCK and is parked with its staging directory complete; B and C arrive meanwhile
+        let _ = std::fs::write(ctl.join("A.hold44"), b"");
+        let spawn = |name: &'static str, p: PathBuf| std::thread::spawn(move || { ROLE.with(|r| *r.borrow_mut() = Some(name.to_string())); scan_summary(&p) });
+        let a = spawn("A", path.clone());
+        let ok1 = wait_file(&ctl.join("A.at44"), 30);
+        let b = spawn("B", path.clone());
+        let c = spawn("C", path.clone());
+        let ok2 = wait_file(&ctl.join("B.at42"), 30) && wait_file(&ctl.join("C.at42"), 30);
+        std::thread::sleep(std::time::Duration::from_millis(20));
+        let _ = std::fs::write(ctl.join("A.go44"), b"");
+        let ra = a.join().unwrap_or(json!({"panic": "thread"}));
+        let rb = b.join().unwrap_or(json!({"panic": "thread"}));
+        let rc = c.join().unwrap_or(json!({"panic": "thread"}));
+        println!("{}", json!({"sched_ok": ok1 && ok2, "A": ra, "B": rb, "C": rc}));
+    } else {
+        println!("{}", scan_summary(&path));
+    }
+}
+
+fn spawn_role(role: &str, ipc: Option<&str>, ctl: &Path, path: &Path) -> Option<std::process::Child> {
+    let exe = std::env::current_exe().ok()?;
+    let mut cmd = std::process::Command::new(exe);
+    cmd.args(["C20", "--opt", &format!("sched_role={}", role), "--opt", &format!("ctl={}", ctl.display()), "--opt", &format!("path={}", path.display())]);
+    match ipc { Some(m) => { cmd.env("QE_IPC_CACHE", m); } None => { cmd.env_remove("QE_IPC_CACHE"); } }
+    cmd.stdout(std::process::Stdio::piped()).stderr(std::process::Stdio::null());
+    cmd.spawn().ok()
+}
+
+fn finish(ch: Option<std::process::Child>) -> Value {
+    match ch.and_then(|c| c.wait_with_output().ok()) {
+        Some(o) => String::from_utf8_lossy(&o.stdout).lines().last().and_then(|l| serde_json::from_str::<Value>(l).ok()).unwrap_or(json!({"err": "no output"})),
+        None => json!({"err": "spawn"}),
+    }
+}
+
+/// Runs one scheduled case: the table is written to `dir/a.parquet`, control files live in `dir/ctl`.
+fn run_sched(c: &Value, dir: &Path) -> Value {
+    let ctl = dir.join("ctl");
+    let _ = std::fs::create_dir_all(&ctl);
+    let path = dir.join("a.parquet");
+    let touch = |n: &str| { let _ = std::fs::write(ctl.join(n), b""); };
+    match c["sched"].as_str().unwrap_or("") {
+        "inproc" => finish(spawn_role("inproc", Some("1"), &ctl, &path)),
+        kind => {
+            let race = kind == "xproc-race";
+            for h in ["A.hold44", "B.hold44", "B.hold45"] { touch(h); }
+            if race { touch("R.hold46"); }
+            let a = spawn_role("A", Some("1"), &ctl, &path);
+            let b = spawn_role("B", Some("1"), &ctl, &path);
+            // both processes found the sidecar missing, took their own BUILD_LOCK and completed their staging directory
+            let mut ok = wait_file(&ctl.join("A.at44"), 40) && wait_file(&ctl.join("B.at44"), 40);
+            touch("A.go44");
+            let ra = finish(a);                                   // A publishes: the final directory is fresh
+            let (rr, rb);
+            if race {
+                let r = spawn_role("R", None, &ctl, &path);        // the reader sees A's fresh `.complete` …
+                ok = wait_file(&ctl.join("R.at46"), 40) && ok;     // … and is parked before open(rg_0)
+                touch("B.go44");                                   // B runs remove_dir_all(final) on A's directory
+                ok = wait_file(&ctl.join("B.at45"), 40) && ok;
+                touch("R.go46");
+                rr = finish(r);
+                touch("B.go45");
+                rb = finish(b);
+            } else {
+                touch("B.go44"); touch("B.go45");
+                rb = finish(b);
+                rr = finish(spawn_role("R", None, &ctl, &path));
+            }
+            let r2 = finish(spawn_role("R2", None, &ctl, &path));
+            json!({"sched_ok": ok, "A": ra, "B": rb, "R": rr, "R2": r2})
+        }
+    }
 }
 
 pub fn gen_case(r: &mut Rng, big: bool) -> Value {
@@ -214,9 +335,15 @@ pub fn gen_case(r: &mut Rng, big: bool) -> Value {
 }
 
 pub fn main(o: &Opts) {
+    if let Some(role) = o.get("sched_role") { let role = role.to_string(); sched_child(o, &role); return; }
     if let Some(m) = o.get("child") { let m = m.to_string(); child(o, &m); return; }
     if let Some(p) = &o.replay { run_all(replay_cases(p)); return; }
     let mut r = Rng::new(o.seed ^ 0xC20);
-    let cases: Vec<Value> = (0..o.cases).map(|n| gen_case(&mut r, n % 16 == 7)).collect();
+    let cases: Vec<Value> = (0..o.cases).map(|n| {
+        let mut c = gen_case(&mut r, n % 16 == 7);
+        // every 8th case is a scheduled interleaving on a small table
+        if n % 8 == 3 { c = gen_case(&mut r, false); c["sched"] = json!(["xproc-race", "xproc-safe", "inproc"][(n / 8) % 3]); }
+        c
+    }).collect();
     run_all(cases);
 }
